@@ -119,7 +119,7 @@ ReloadD ==
   \* Dispatcher.Stop waits for every group's run loop: a delivery that has succeeded is recorded
   \* (SetNotifiesStage does not look at the cancelled context) before the new dispatcher starts
   /\ \A id \in DOMAIN grp : grp[id].st = "flushing" => \A i \in 1..NInt : grp[id].pc[i].pc # "log"
-  /\ Reloading(cfg.integs)
+  /\ Reloading(cfg.integs, cfg.routes)
   /\ LET st == ReloadFold([grp |-> [id \in DOMAIN grp |-> [grp[id] EXCEPT !.dead = TRUE, !.st = "idle"]], gmap |-> << >>, ids |-> ids],
                           SetToSeq(DOMAIN ver))
      IN grp' = st.grp /\ gmap' = st.gmap /\ ids' = st.ids
